@@ -27,6 +27,7 @@ type PropertySpec struct {
 	Sweep      []string          `json:"sweep"`      // packages whose every function is checked in bounds mode (index, slice, type assertion, explicit panic), no annotation needed
 	Bounded    []string          `json:"bounded"`   // bounded stand-ins (thorough tier)
 	BoundedQuick bool            `json:"bounded_in_quick"` // run the bounded stand-ins in the quick tier too (they carry known findings)
+	QuickBounded []string        `json:"bounded_quick"`    // bounded stand-ins that run in both tiers (cheap ones standing in for an assumed contract)
 	Assumed    []string          `json:"assumed"`   // assumed contracts the property relies on
 	Residue    string            `json:"residue"`
 	NeedsEmitted bool            `json:"needs_emitted"`
@@ -293,8 +294,15 @@ func (run *checkRun) execute(verbose bool) int {
 		rs := runStructural(w, rule)
 		run.extra = append(run.extra, rs...)
 	}
+	ranBounded := map[string]bool{}
 	if run.tier == "thorough" || spec.BoundedQuick {
 		for _, b := range spec.Bounded {
+			ranBounded[b] = true
+			run.bounded = append(run.bounded, runBounded(w, b, run.seed))
+		}
+	}
+	for _, b := range spec.QuickBounded {
+		if !ranBounded[b] {
 			run.bounded = append(run.bounded, runBounded(w, b, run.seed))
 		}
 	}
